@@ -10,7 +10,7 @@ theorem Inv.complete {P : Program} {s s' : St} {k : Key} {r' : Res}
     (h4 : s'.db = s.db) (h5 : s'.dbIter = s.dbIter) (h6 : s'.status = s.status)
     (h7 : s'.task = upd s.task k { s.task k with completed := true })
     (h8 : s'.pending = s.pending) (h9 : s'.target = s.target) (h10 : s'.started = s.started)
-    (h11 : s'.validSeen = s.validSeen)
+    (h11 : s'.validSeen = s.validSeen) (h12 : s'.registered = s.registered) (h13 : s'.sigAt = s.sigAt)
     (hs : s.status k = .computing) (hts : (s.task k).started = true)
     (hrb : r'.builtAt = (s.mem.res k).builtAt)
     (hrv : r'.value = P.out k s.env (recvOf (s.task k).seq))
@@ -66,8 +66,9 @@ theorem Inv.complete {P : Program} {s s' : St} {k : Key} {r' : Res}
     have hxk : x ≠ k := by intro e; subst e; rw [hfk] at hfl; cases hfl
     obtain ⟨g, f⟩ := hi.good x hbx hfl
     constructor
-    · exact GoodRec.frame (σ := s.mem) (by rw [hseq]) (by rw [hdisc]) (by rw [henv]) (by rw [ho x hxk])
-        (by intro y hy; rw [ho x hxk]; exact hy) g
+    · intro hso; rw [ho x hxk] at hso
+      exact GoodRec.frame (σ := s.mem) (by rw [hseq]) (by rw [hdisc]) (by rw [henv]) (by rw [ho x hxk])
+        (by intro y hy; rw [ho x hxk]; exact hy) (g hso)
     · rw [h8]
       apply FreshRec.mono2 (σ := s.mem) (by rw [hseq]) (by rw [hdisc]) (by rw [hb]; exact Nat.le_refl _) _ _ _ f
       · intro q v hq hk
@@ -182,7 +183,9 @@ theorem Inv.complete {P : Program} {s s' : St} {k : Key} {r' : Res}
   · intro x hx hv
     rw [h6] at hx; rw [h11] at hv
     have hxk : x ≠ k := by intro e; subst e; rw [hs] at hx; cases hx
-    rw [h1, ho x hxk]; exact hi.validOk x hx hv
+    rw [h1, ho x hxk, h13]; exact hi.validOk x hx hv
   · rw [h9, h6, h11]; exact hi.validIdle
+  · rw [h12, h13]; exact hi.sigAtOk
+  · rw [h6, h12]; exact hi.scanReg
 
 end LLBuild.Engine
